@@ -397,10 +397,11 @@ def run(ctx):
 
     def side_runs():
         for c in live:
-            ctx.tlc(S, "MC_BSP", "MC_BSP_live.cfg", defines=mc_defs(*c), name="live-" + cfg_name(*c), timeout=3000)
+            ctx.tlc(S, "MC_BSP", "MC_BSP_live.cfg", defines=mc_defs(*c), name="live-" + cfg_name(*c), timeout=3000, heap=side_heap)
         ctx.tlc(S, "MC_BSP", "MC_BSP_live.cfg", defines=mc_defs(1, 1, 1, 1, True, 1, 1, expiring=("f1", "s1")),
-                name="live-expiring", timeout=3000)
-        ctx.tlc(S, "MC_SSP", "MC_SSP.cfg", defines=ssp, name="mc-ssp", timeout=1200)
+                name="live-expiring", timeout=3000, heap=side_heap)
+        ctx.tlc(S, "MC_SSP", "MC_SSP.cfg", defines=ssp, name="mc-ssp", timeout=1200, heap=side_heap)
+    side_heap = "6g" if thorough else "3g"     # two JVMs run side by side now: cap the second one (<= 0.5 M states here)
     side_pool = ThreadPoolExecutor(max_workers=1)
     side = side_pool.submit(side_runs)
 
